@@ -207,8 +207,16 @@ def scale_homogeneous(ctx):
                         pass
             try:
                 l, r = e2.ev(n.left), e2.ev(n.comparators[0])
+            except Inconclusive:
+                continue
+            try:
                 gl, gr = rat_grade(l, dims), rat_grade(r, dims)
-            except (Inconclusive, Inhomogeneous):
+            except Inhomogeneous as e:
+                res.fail(ctx.finding(
+                    'SCALE-HOMOGENEOUS', g, n,
+                    f'aperture test operand is not homogeneous in length '
+                    f'({e}): clipping does not scale with the lens',
+                    construct='clip comparison grades'))
                 continue
             if gl is not None and gr is not None and gl == gr:
                 res.ok(f'clip: {unparse(n)} compares {fmt_grade(gl)} with '
@@ -219,7 +227,7 @@ def scale_homogeneous(ctx):
                     f'aperture test compares {fmt_grade(gl)} with '
                     f'{fmt_grade(gr)}: clipping does not scale with the lens',
                     construct='clip comparison grades'))
-    res.require(40, 'graded obligations')
+    res.require(34, 'graded obligations')
     return res
 
 
